@@ -2,6 +2,7 @@ CONSTANTS
   SegsA = 3
   SegsB = 3
   Fam = "uri"
+  Mode = "main"
 INIT Init
 NEXT Next
 INVARIANT Satisfiable
